@@ -641,7 +641,43 @@ func c12Scenarios(tier string) []*Scenario {
 		_ = r.Close()
 	}
 	sc.Check = func(x *Run, o *rt.Outcome) (string, string, string) { return "", "", "ok" }
-	return []*Scenario{sc}
+	// K2: two reporters of one process (same protocol) allocate at the same time: what one charges must not depend
+	// on the other (nothing the size measurement uses may be shared between reporters under a per-reporter lock)
+	sc2 := &Scenario{Property: "C12", Name: "K2-two-reporters-allocate-concurrently", Ticks: 0, AllowLeak: true, BoundSet: true, Bound: tierInt(tier, 1, 2), FreeBound: tierInt(tier, 2, 3), Shards: 4}
+	sc2.Body = func(x *Run) {
+		var rs []m3.Reporter
+		for i := 0; i < 2; i++ {
+			s := newFastSink()
+			x.Cleanup = append(x.Cleanup, s.close)
+			r, err := m3.NewReporter(m3.Options{HostPorts: []string{s.addr}, Service: "svc", Env: "test", MaxQueueSize: 8})
+			if err != nil {
+				x.failf("new-reporter", "%v", err)
+				return
+			}
+			rs = append(rs, r)
+		}
+		names := []string{strings.Repeat("a", 40), strings.Repeat("b", 300)}
+		tags := []map[string]string{{"k": "v"}, c12Tags(6)}
+		got := make([]int32, 2)
+		var ths []*rt.Thread
+		for i := range rs {
+			i := i
+			ths = append(ths, rt.GoNamed(fmt.Sprintf("alloc%d", i), func() {
+				got[i] = m3.VerifChargedSize(rs[i].AllocateCounter(names[i], tags[i]))
+			}))
+		}
+		for _, t := range ths {
+			t.Join()
+		}
+		for i := range rs {
+			if want := m3.VerifChargedSize(rs[i].AllocateCounter(names[i], tags[i])); got[i] != want {
+				x.failf("charged-size-depends-on-concurrent-allocation", "reporter %d of two: charged %d bytes while the other reporter was allocating, %d when allocating alone", i, got[i], want)
+			}
+			_ = rs[i].Close()
+		}
+	}
+	sc2.Check = func(x *Run, o *rt.Outcome) (string, string, string) { return "", "", "ok" }
+	return []*Scenario{sc, sc2}
 }
 
 func chargedAt(sizes []int32, i int) int32 {
